@@ -530,3 +530,67 @@ Definition search_over_safe_b (fd : finder) (oracles : list (list ix)) : bool :=
       | _ => true
       end
   end.
+
+(* ------------------------------------------------------------------ *)
+(* per-call target overrides: search(max_repeats, temperature, target_size, target_overhead,
+   target_slices) hands its arguments to BOTH trial and best, each of which resolves them by
+   _maybe_default(attr, value): the argument when it is not None, else the construction-time
+   attribute.  So one call behaves like the finder with the effective targets, run on the
+   cache the object already holds (self.costs persists across calls). *)
+Definition maybe_default {A} (attr value : option A) : option A :=
+  match value with Some v => Some v | None => attr end.
+Definition with_overrides (fd : finder) (ots : option Z) (otov : option (Z * Z)) (otsl : option Z) : finder :=
+  mkFinder (f_cost0 fd) (f_forbidden fd)
+           (maybe_default (f_tsize fd) ots) (maybe_default (f_tover fd) otov) (maybe_default (f_tslices fd) otsl).
+(* one search(...) call on a finder whose cache is ch: new cache and the value of best *)
+Definition search_call (fd : finder) (ots : option Z) (otov : option (Z * Z)) (otsl : option Z)
+    (oracles : list (list ix)) (ch : cache) : outcome (cache * (list ix * costs)) :=
+  let fd' := with_overrides fd ots otov otsl in
+  match search_loop fd' oracles ch with
+  | Ret (ch', _) => match best fd' ch' with
+                    | Ret e => Ret (ch', e)
+                    | Raise k => Raise k
+                    | Stuck => Stuck
+                    end
+  | Raise k => Raise k
+  | Stuck => Stuck
+  end.
+
+Definition overrides := (option Z * (option (Z * Z) * option Z))%type.
+Definition obs_search_from (fd : finder) (oracles : list (list ix)) (ch : cache) :=
+  match search_loop fd oracles ch with
+  | Ret (ch', rs) =>
+      ((0%nat, (map obs_pred rs, (map (fun e => (fst e, obs_costs (snd e))) ch',
+               obs_outcome obs_pred (best fd ch')))), Some ch')
+  | Raise k => ((k, ([], ([], (k, None)))), None)
+  | Stuck => ((99%nat, ([], ([], (99%nat, None)))), None)
+  end.
+(* a sequence of search calls on one SliceFinder object; a call whose trials raise ends the
+   sequence (the harness stops there too); a call where only best raises keeps the cache *)
+Fixpoint obs_calls (fd : finder) (calls : list (overrides * list (list ix))) (ch : cache) :=
+  match calls with
+  | [] => []
+  | (ov, oracles) :: rest =>
+      let fd' := with_overrides fd (fst ov) (fst (snd ov)) (snd (snd ov)) in
+      let r := obs_search_from fd' oracles ch in
+      fst r :: match snd r with Some ch' => obs_calls fd rest ch' | None => [] end
+  end.
+(* the executable checks (scratch_b on every cache entry; over_safe_b w.r.t. the overhead
+   target of the CALL on every entry of the cache after that call) along such a sequence *)
+Fixpoint calls_check_b (n : net) (sl0 : list slinfo) (t : tree) (fd : finder)
+    (calls : list (overrides * list (list ix))) (ch : cache) : bool :=
+  match calls with
+  | [] => true
+  | (ov, oracles) :: rest =>
+      let fd' := with_overrides fd (fst ov) (fst (snd ov)) (snd (snd ov)) in
+      match search_loop fd' oracles ch with
+      | Ret (ch', _) =>
+          forallb (scratch_b n sl0 t) ch'
+          && match f_tover fd' with
+             | Some tv => forallb (fun e => over_safe_b (snd e) tv) ch'
+             | None => true
+             end
+          && calls_check_b n sl0 t fd rest ch'
+      | _ => true
+      end
+  end.
